@@ -239,6 +239,24 @@ def floatFields (v : JVal) : String :=
   ";f=" ++ (match f64View v with | some (some b) => natHex b.toNat | some none => "E" | none => "-")
     ++ ";cf=" ++ (match toFloatGeneric v with | some g => canonF g | none => "E")
 
+/-! ## the *UseNode conversions: the children themselves, as nodes -/
+
+/-- `ArrayUseNode` / `InterfaceUseNode` on an array: the children in document order -/
+def arrayNodes : JVal → Option (List JVal)
+  | .arr xs => some xs
+  | _ => none
+
+/-- `MapUseNode` / `InterfaceUseNode` on an object: one child per distinct decoded key (the last
+    occurrence: `linkedPairs.ToMap` assigns in document order), sorted by key for comparison -/
+def mapNodes : JVal → Option (List (Bytes × JVal))
+  | .obj kvs => some (kvs.foldl (fun acc kv => mapInsert (unescapeKey kv.1) kv.2 acc) [])
+  | _ => none
+
+def useNodeView (v : JVal) : String :=
+  match mapNodes v with
+  | some m => "{" ++ joinWith "," (m.map fun (k, w) => hexs k ++ ":" ++ ocanon w) ++ "}"
+  | none => ocanon v
+
 /-- the record of views of a located value; `raw = none` prints `*` (the tree specification
     does not speak about the slice) -/
 def viewRecord (raw : Option Bytes) (v : JVal) : String :=
@@ -252,6 +270,7 @@ def viewRecord (raw : Option Bytes) (v : JVal) : String :=
     ++ ";b=" ++ (match boolView v with | some true => "1" | some false => "0" | none => "-")
     ++ ";it=" ++ iterView v
     ++ floatFields v
+    ++ ";un=" ++ useNodeView v
 
 def eventStr : Event → String
   | .null => "n"
